@@ -407,6 +407,333 @@ def preused_modules(ctx, nmax):
         cov.case(("preused", hostk, cls, spec, how, d_pre, rep["X"], mode, parts), len(m.W) < n)
 
 
+# ---------------------------------------------------------------- plotting calls inside a training history
+# The property relates W to labels_ "after one training pass" whatever else the user asked of the estimator during that
+# pass: drawing the model (visualize / plot_cluster_bounds, handed the estimator's OWN labels_ array, with a colour
+# list that may be shorter than the number of categories) and the animated twin of fit (fit_gif, whose palette of
+# n_cluster_estimate + 1 colours is only an estimate) present no sample.  Afterwards every category is still the exact
+# summary of the samples labels_ assigns to it, no weight moved, and the size bounds hold; training can go on.
+# A drawing call that raises is tolerated (BayesianART cannot be drawn with this numpy, hosts without
+# plot_cluster_bounds raise NotImplementedError): the state is judged all the same, the picture is not.
+
+EXACT = ("FuzzyART", "ART1", "HypersphereART", "GaussianART", "BayesianART")
+
+
+def _plt():
+    try:
+        import matplotlib
+        matplotlib.use("Agg")
+        import matplotlib.pyplot as plt
+        return plt
+    except Exception:   # noqa
+        return None
+
+
+def summary_targets(kind, fam, est, rows):
+    """[(signature prefix, class, module, its data block, its labels getter, judged by the exact-summary clause)] for the
+    modules of a families.Family instance the property speaks about"""
+    arrs = rows.arrs
+    if kind in families.ELEM:
+        return [("", kind, est, arrs["X"], lambda: est.labels_, True)]
+    if kind == "SimpleARTMAP":
+        return [("SimpleARTMAP/", fam.a_cls, est.module_a, arrs["X"], lambda: est.module_a.labels_, True)]
+    if kind == "ARTMAP":
+        return [("ARTMAP.A/", fam.a_cls, est.module_a, arrs["X"], lambda: est.module_a.labels_, True),
+                ("ARTMAP.B/", fam.b_cls, est.module_b, arrs["y"], lambda: est.module_b.labels_, True)]
+    if kind in ("DualVigilanceART", "TopoART"):
+        # base modules: growth and size bound only (labels_ name clusters / may be pruned)
+        return [(kind + "/", fam.spec["base_module"]["cls"], est.base_module, arrs["X"], lambda: est.base_module.labels_, False)]
+    return []
+
+
+def judge_after_plot(ctx, targets, n_rows, before, rep, where, mode, d_raws):
+    """the property's clauses on the state a plotting call left behind; `before` = weight snapshots taken just before
+    the call (None: the call was itself the training pass, fit_gif)"""
+    for j, (pre, cls, m, Xm, lab, exact) in enumerate(targets):
+        sig = f"{pre}after-plotting/"
+        if before is not None:
+            a = snap(m)
+            if not same_weights(before[j], a):
+                k = next((q for q, (x, y) in enumerate(zip(before[j], a)) if x.shape != y.shape or not np.array_equal(x, y, equal_nan=True)), -1)
+                ctx.issue("violation", f"{sig}{cls}:plot-moved-a-weight",
+                          f"{where}: the categories changed although no sample was presented: "
+                          + (f"category {k}: {before[j][k].tolist()} -> {a[k].tolist()}" if k >= 0 else f"{len(before[j])} -> {len(a)} categories"), rep)
+            ctx.cov.hit("plot:weights-compared-across-plotting-call")
+        if exact and cls in EXACT:
+            labels = np.asarray(lab())
+            Xm = np.asarray(Xm)[:n_rows]
+            if len(labels) == len(Xm):
+                exact_summary(ctx, cls, m, Xm, labels, dict(rep, judged=where), sig)
+                ctx.cov.hit(f"plot:exact-summary-after-plotting:{cls}")
+            else:
+                ctx.cov.hit(f"plot:labels-do-not-cover-the-rows:{pre}{cls}")
+        lowered = mode == "MT-" and pre in ("SimpleARTMAP/", "ARTMAP.A/")
+        if not lowered:
+            bounds(ctx, cls, m, dict(rep, judged=where), sig, d_raws[j])
+            ctx.cov.hit("plot:size-bound-after-plotting")
+
+
+def shared_plotting_scenarios(ctx):
+    """harness/artv/plotpure.py: estimators AFTER a plotting call inside a history; the clauses of this property on them,
+    then one more partial_fit and the clauses again"""
+    from .. import plotpure
+    cov = ctx.cov
+    for sc in plotpure.scenarios(ctx, "C02", quick=26, thorough=260):
+        if sc.raised is not None and sc.plot.startswith("fit_gif"):
+            cov.hit("plot:fit_gif-stopped-in-a-frame")   # not a complete training call: nothing to judge
+            continue
+        try:
+            targets = summary_targets(sc.kind, sc.fam, sc.est, sc.rows)
+        except Exception as e:
+            cov.hit(f"plot:no-targets:{sc.kind}:{exc_enum(e)}")
+            continue
+        if not targets:
+            continue
+        where = f"after {sc.trained_by} then {sc.plot}" + (f" (drawing raised {sc.raised})" if sc.raised else "")
+        rep = dict(sc.desc, trained_by=sc.trained_by, state_changed_by_plot=sc.changed[:12], generator="plotpure.scenarios(ctx, 'C02')")
+        d_raw = sc.fam.groups[0][1]
+        d_raws = [d_raw] + ([np.asarray(sc.rows.arrs["y"]).shape[1] // (2 if getattr(sc.fam, "b_cls", "") == "FuzzyART" else 1)]
+                            if sc.kind == "ARTMAP" else [])
+        try:
+            judge_after_plot(ctx, targets, sc.n_presented, None, rep, where, sc.fam.mode, d_raws)
+            ncat = max(len(getattr(t[2], "W", [])) for t in targets)
+            if "short-colors" in sc.plot or sc.plot.startswith("fit_gif"):
+                cov.hit("plot:shared:" + ("more-categories-than-colours" if ncat > 2 else "palette-covers-the-categories"))
+            # training goes on after the picture: the categories only grow and still summarise all their members
+            k = 1 + (len(sc.rows) > 2)
+            prev = [snap(t[2]) for t in targets]
+            try:
+                sc.fam.pfit(sc.est, sc.rows.sl(0, k))
+            except Exception as e:
+                cov.hit(f"plot:continuation-raised:{sc.kind}:{exc_enum(e)}")
+                continue
+            more = sc.rows.concat(sc.rows.sl(0, k))
+            t2 = summary_targets(sc.kind, sc.fam, sc.est, more)
+            for (pre, cls, m, _, _, _), b in zip(t2, prev):
+                monotone(ctx, cls, b, snap(m), dict(rep, then_partial_fit_rows=k), f"{pre}after-plotting/")
+            judge_after_plot(ctx, t2, sc.n_presented + k, None, dict(rep, then_partial_fit_rows=k), where + f" then partial_fit rows 0:{k}",
+                             sc.fam.mode, d_raws)
+            cov.hit("plot:shared:continued-with-partial_fit")
+        except Exception as e:
+            cov.hit(f"plot:oracle-not-applicable:{sc.kind}:{exc_enum(e)}")
+        cov.case(("plot-shared", sc.fam.spec, sc.desc["rows"], sc.plot, sc.trained_by), True)
+
+
+def many_category_spec(r, cls, d):
+    """hyper-parameters under which a short stream founds several categories that each absorb several samples, with
+    learning rate 1 (the exact-summary clause)"""
+    spec = specs.elem_spec(r, cls, specs.width(cls, d) if cls != "FuzzyART" else d)
+    if cls in ("FuzzyART", "HypersphereART"):
+        spec["beta"] = 1.0
+    if r.random() < 0.75:
+        if cls == "FuzzyART":
+            spec["rho"] = r.choice([0.75, 0.875, 0.9375])
+        elif cls == "ART1":
+            spec["rho"] = r.choice([0.75, 1.0])
+        elif cls == "HypersphereART":
+            spec["rho"] = r.choice([0.75, 0.875])
+            spec["r_hat"] = r.choice([1.0, 2.0])
+            spec["alpha"] = max(spec["alpha"], 2.0 ** -10)
+        elif cls == "GaussianART":
+            spec["rho"] = r.choice([0.5, 0.75])
+            spec["sigma_init"] = [0.25] * d
+        elif cls == "BayesianART":
+            spec["rho"] = r.choice([2.0 ** -12, 2.0 ** -6])
+    return spec
+
+
+def palette(r, plt, ncat, short):
+    """(colour table, description): fewer colours than categories, or enough; a list of names or an RGBA array"""
+    k = r.randint(1, max(1, ncat - 1)) if short else ncat + r.randint(0, 3)
+    kind = r.choice(["names", "rgba-array", "rgba-tuples"])
+    if kind == "names":
+        cols = [["r", "g", "b", "c", "m", "y", "k"][q % 7] for q in range(k)]
+    elif kind == "rgba-array":
+        cols = plt.cm.rainbow(np.linspace(0, 1, k))
+    else:
+        cols = [(0.1 * (q % 10), 0.5, 0.5, 1.0) for q in range(k)]
+    return cols, {"n_colors": k, "colors": kind}
+
+
+def own_plotting_histories(ctx, nmax):
+    """histories of this check's own making: learning rate 1, vigilance high enough for MORE categories than the colour
+    table has entries; bare modules (also trained by fit_gif with a small n_cluster_estimate / a short colour list),
+    SimpleARTMAP and ARTMAP sides and FusionART channels drawn with the labels_ array that names their categories,
+    between the batches of one training pass"""
+    from ..impl import FusionART, SimpleARTMAP, ARTMAP
+    import shutil
+    import tempfile
+    plt = _plt()
+    cov = ctx.cov
+    if plt is None:
+        cov.hit("plot:matplotlib-missing")
+        return
+    tmp = tempfile.mkdtemp(prefix="artv-C02-plot-")
+    hosts = ["", "fit_gif", "SimpleARTMAP/", "", "ARTMAP.A/", "FusionART.channel/", "ARTMAP.B/", ""]
+    try:
+        for i in range(ctx.scale(32, 400)):
+            r = gen.rng_for(ctx.seed, "C02-plot-own", i)
+            hostk = hosts[i % len(hosts)]
+            cls = r.choice(["FuzzyART", "FuzzyART", "ART1", "HypersphereART", "GaussianART", "BayesianART"] if hostk != "ARTMAP.B/"
+                           else ["FuzzyART", "FuzzyART", "HypersphereART", "GaussianART"])
+            d = r.choice([2, 2, 3])
+            n = r.randint(6, 9 if hostk == "fit_gif" else min(nmax, 14))
+            spec = many_category_spec(r, cls, d)
+            X = specs.elem_data(r, cls, n, d, style=r.choice(["dups", "coarse", "blobs", "uniform"]))
+            mode = r.choice(MODES)
+            parts = gen.compositions(r, n)
+            log = []
+            rep = {"host": hostk, "class": cls, "spec": spec, "d": d, "X": X.tolist(), "mode": mode, "batches": parts, "plotting_calls": log,
+                   "generator": "own_plotting_histories"}
+            # ---- the estimator, the module whose categories are judged, who is drawn with which labels
+            try:
+                m = make(spec)
+                with quiet():
+                    if hostk in ("", "fit_gif"):
+                        est, pre = m, ""
+                        train = lambda sl: est.partial_fit(X[sl], match_tracking=mode)                       # noqa: E731
+                        drawn = [("visualize(X, labels_)", m, X, lambda: m.labels_)]
+                    elif hostk == "SimpleARTMAP/":
+                        est, pre = SimpleARTMAP(m), "SimpleARTMAP/"
+                        y = gen.labels(r, n, 3)
+                        rep["y"] = y.tolist()
+                        train = lambda sl: est.partial_fit(X[sl], y[sl], match_tracking=mode)                # noqa: E731
+                        drawn = [("module_a.visualize(X, module_a.labels_)", m, X, lambda: m.labels_),
+                                 ("SimpleARTMAP.visualize(X, labels_)", est, X, lambda: est.labels_)]
+                    elif hostk in ("ARTMAP.A/", "ARTMAP.B/"):
+                        co = r.choice(["FuzzyART", "FuzzyART", "HypersphereART"])
+                        so = many_category_spec(r, co, 2)
+                        Xo = specs.elem_data(r, co, n, 2, style=r.choice(["dups", "coarse", "blobs"]))
+                        mo = make(so)
+                        rep["other_side"] = {"spec": so, "X": Xo.tolist()}
+                        est, pre = (ARTMAP(m, mo), "ARTMAP.A/") if hostk == "ARTMAP.A/" else (ARTMAP(mo, m), "ARTMAP.B/")
+                        A, B = (X, Xo) if hostk == "ARTMAP.A/" else (Xo, X)
+                        train = lambda sl: est.partial_fit(A[sl], B[sl], match_tracking=mode)               # noqa: E731
+                        drawn = [("module_a.visualize(X, module_a.labels_)", est.module_a, A, lambda: est.module_a.labels_),
+                                 ("module_b.visualize(y, module_b.labels_)", est.module_b, B, lambda: est.module_b.labels_)]
+                    else:
+                        co = r.choice(["FuzzyART", "ART1"])
+                        so = specs.elem_spec(r, co, 2)
+                        so["rho"] = 0.0 if co == "FuzzyART" else so["rho"]
+                        if co == "FuzzyART":
+                            so["beta"], so["alpha"] = 1.0, max(so["alpha"], 2.0 ** -10)
+                        Xo = specs.elem_data(r, co, n, 2, style=r.choice(["dups", "coarse"]))
+                        slot = r.randrange(2)
+                        mods = [m, make(so)] if slot == 0 else [make(so), m]
+                        blocks = [X, Xo] if slot == 0 else [Xo, X]
+                        dims = [b.shape[1] for b in blocks]
+                        rep.update(slot=slot, channel_dims=dims, gamma_values=[0.5, 0.5], other_channel={"spec": so, "X": Xo.tolist()})
+                        est, pre = FusionART(mods, gamma_values=[0.5, 0.5], channel_dims=dims), "FusionART.channel/"
+                        XX = np.hstack(blocks)
+                        train = lambda sl: est.partial_fit(XX[sl], match_tracking=mode)                      # noqa: E731
+                        drawn = [("modules[k].visualize(X_k, FusionART.labels_)", m, X, lambda: est.labels_),
+                                 ("FusionART.visualize(X, labels_)", est, XX, lambda: est.labels_)]
+            except Exception as e:
+                cov.hit(f"plot:own:make-raised:{hostk}{cls}:{exc_enum(e)}")
+                continue
+            lab = (lambda: est.labels_) if pre == "FusionART.channel/" else (lambda: m.labels_)
+            targets = [(pre, cls, m, X, lab, True)]
+            sigp = f"{pre}after-plotting/"
+            overflowed = False
+
+            def draw(where_, seen):
+                """one plotting call on the current state; returns False when nothing was drawn"""
+                nonlocal overflowed
+                name, who, Xw, getlab = r.choice(drawn)
+                cur_labels = np.asarray(getlab())
+                ncat = int(cur_labels.max()) + 1 if len(cur_labels) else 1    # what the colour table is indexed by
+                how = r.choice(["visualize:short", "visualize:short", "visualize:long", "visualize:default", "plot_cluster_bounds:short"])
+                cols, cdesc = palette(r, plt, ncat, short=how.endswith("short"))
+                own = r.random() < 0.8
+                log.append(dict(cdesc, after_rows=seen, call=name, how=how, own_labels_array=own, categories=ncat))
+                before = [snap(m)]
+                raised = None
+                try:
+                    with quiet():
+                        labels = getlab()
+                        labels = labels if own else np.array(labels)
+                        fig, ax = plt.subplots()
+                        if how == "plot_cluster_bounds:short":
+                            who.plot_cluster_bounds(ax, cols)
+                        elif how == "visualize:default":
+                            who.visualize(np.asarray(Xw)[:seen], labels, ax=ax)
+                        else:
+                            who.visualize(np.asarray(Xw)[:seen], labels, ax=ax, colors=cols)
+                except Exception as e:
+                    raised = exc_enum(e)
+                    cov.hit(f"plot:own:drawing-raised:{type(who).__name__}:{how}:{raised}")
+                finally:
+                    plt.close("all")
+                if ncat > cdesc["n_colors"] and how != "visualize:default":
+                    overflowed = True
+                    cov.hit("plot:own:more-categories-than-colours")
+                    if own and how.startswith("visualize"):
+                        cov.hit("plot:own:more-categories-than-colours:own-labels_-array:" + (pre or "bare/"))
+                cov.hit(f"plot:own:{how}")
+                cov.hit(f"plot:own:{name}")
+                judge_after_plot(ctx, targets, seen, before, dict(rep, rows_presented=seen),
+                                 f"{where_}: {name} [{how}, {cdesc['n_colors']} colours ({cdesc['colors']}), {ncat} categories]"
+                                 + (f" (drawing raised {raised})" if raised else ""), mode, [d])
+
+            ok = True
+            if hostk == "fit_gif":
+                # the animated twin of fit: one frame per sample, drawn with the live labels_ and a palette of
+                # n_cluster_estimate + 1 colours (or the caller's colour list)
+                kw = {"n_cluster_estimate": r.randint(1, 3)} if r.random() < 0.6 else {"colors": palette(r, plt, r.randint(2, 4), True)[0]}
+                rep["fit_gif"] = {k_: (v if isinstance(v, int) else len(v)) for k_, v in kw.items()}
+                try:
+                    with quiet():
+                        est.fit_gif(X, filename=f"{tmp}/g{i}.gif", fps=50, match_tracking=mode, **kw)
+                except Exception as e:
+                    cov.hit(f"plot:own:fit_gif-raised:{cls}:{exc_enum(e)}")
+                    plt.close("all")
+                    continue
+                plt.close("all")
+                ncol = kw["n_cluster_estimate"] + 1 if "n_cluster_estimate" in kw else len(kw["colors"])
+                if len(m.W) > ncol:
+                    overflowed = True
+                    cov.hit("plot:own:fit_gif:more-categories-than-colours")
+                cov.hit("plot:own:fit_gif:" + ("n_cluster_estimate" if "n_cluster_estimate" in kw else "colors"))
+                judge_after_plot(ctx, targets, n, None, rep, f"fit_gif({rep['fit_gif']}) created {len(m.W)} categories", mode, [d])
+                # and training goes on: a few of the rows again
+                k = r.randint(1, 3)
+                prev = snap(m)
+                try:
+                    with quiet():
+                        est.partial_fit(X[:k], match_tracking=mode)
+                    monotone(ctx, cls, prev, snap(m), dict(rep, then_partial_fit_rows=k), sigp)
+                    Xall = np.vstack([X, X[:k]])
+                    judge_after_plot(ctx, [(pre, cls, m, Xall, lab, True)], n + k, None, dict(rep, then_partial_fit_rows=k),
+                                     f"fit_gif({rep['fit_gif']}) then partial_fit rows 0:{k}", mode, [d])
+                    cov.hit("plot:own:fit_gif:continued-with-partial_fit")
+                except Exception as e:
+                    cov.hit(f"plot:own:fit_gif:continuation-raised:{cls}:{exc_enum(e)}")
+            else:
+                prev, seen = [], 0
+                for b, p in enumerate(parts):
+                    try:
+                        with quiet():
+                            train(slice(seen, seen + p))
+                    except Exception as e:
+                        cov.hit(f"plot:own:train-raised:{pre}{cls}:{exc_enum(e)}")
+                        ok = False
+                        break
+                    seen += p
+                    cur = snap(m)
+                    monotone(ctx, cls, prev, cur, dict(rep, batch=b), sigp)
+                    prev = cur
+                    if b == len(parts) - 1 or (len(log) < 2 and r.random() < 0.4):
+                        draw(f"after batch {b} ({seen} rows)", seen)
+                if ok:
+                    # the pass is over: the summary of ALL rows, whatever was drawn on the way
+                    judge_after_plot(ctx, targets, n, None, rep, f"end of the pass, {len(log)} plotting calls on the way", mode, [d])
+            if ok:
+                cov.hit(f"plot:own:history:{hostk or 'bare'}:{cls}")
+                cov.case(("plot-own", hostk, cls, spec, rep["X"], mode, parts, repr(log), repr(rep.get("fit_gif"))), overflowed)
+    finally:
+        shutil.rmtree(tmp, ignore_errors=True)
+
+
 def run(ctx):
     cov = ctx.cov
     N = ctx.scale(300, 7000)
@@ -710,5 +1037,7 @@ def run(ctx):
         cov.case(("artmap", sa, sb, rep["X"], rep["y"], mode, parts), len(mb.W) < n or len(ma.W) < n)
         cov.hit(f"artmap-sides:{ca}+{cb}")
     preused_modules(ctx, nmax)
+    shared_plotting_scenarios(ctx)
+    own_plotting_histories(ctx, nmax)
     e2e.base_histories(ctx, "C02", ctx.scale(150, 3000), ctx.scale(20, 80), fields=("labels", "W"), with_pred=False)
     e2e.sphere_histories(ctx, "C02", ctx.scale(80, 2000), ctx.scale(16, 50))
